@@ -114,13 +114,13 @@ func init() {
 			return true
 		},
 		Budget: func(tier string, cost int) int { // BFS depth
-			if tier == "thorough" {
+			if tier == "thorough" && cost <= 1 {
 				return 4
 			}
 			return 3
 		},
 		Deadline: map[string]time.Duration{"quick": 8 * time.Minute, "thorough": 50 * time.Minute},
-		Rule:     "programs of F-tables compiled with their sqlcrud output and the pq stub; an in-memory store (vsql) is created from the generated DDL of the same program; explicit-state BFS: state = contents of all tables + serial counters (canonical form), transitions = every generated function (Insert, Update, Select*, Delete*, by foreign key / unique / select key, link-table Insert/InsertMany/Delete, custom queries) with 3 row variants (two fully populated with distinct values, one with every nullable NULL and slice nil) and existing / missing ids; every transition must execute without SQL error and agree with a map model; non-trivial = at least one transition executed",
+		Rule:     "BFS depth 3 (quick; thorough: 4 for programs within 1 deviation, 3 for those at 2); link tables with two keys get two more row variants mixing the keys of the others; programs of F-tables compiled with their sqlcrud output and the pq stub; an in-memory store (vsql) is created from the generated DDL of the same program; explicit-state BFS: state = contents of all tables + serial counters (canonical form), transitions = every generated function (Insert, Update, Select*, Delete*, by foreign key / unique / select key, link-table Insert/InsertMany/Delete, custom queries) with 3 row variants (two fully populated with distinct values, one with every nullable NULL and slice nil) and existing / missing ids; every transition must execute without SQL error and agree with a map model; non-trivial = at least one transition executed",
 		Assumptions: []string{
 			"vsql implements the generated tables from the DDL text and mimics PostgreSQL + lib/pq for the statement shapes the generator emits (written from the documentation); foreign keys, UNIQUE and CHECK constraints are not enforced",
 			"custom queries are executed (no SQL error allowed) but their effect is not modelled: the search does not continue from the states they produce",
